@@ -35,7 +35,7 @@ SWEEPS = {
     "MMST": [("n12e18a3k2t30", 1024, 32, False)],
     "MultiCVRP": [("c6v2d", 2048, 20, True)],
     "PacMan": [("small200", 256, 210, False)],
-    "RobotWarehouse": [("s1x3h3a2r1q2t40", 1024, 42, False)],
+    "RobotWarehouse": [("s1x3h2a4r1q2t60", 2048, 62, True), ("s1x3h3a2r1q2t40", 1024, 42, False)],
     "Snake": [("r4c4t4000", 4096, 120, True)],
     "Sokoban": [("simplet120", 1024, 124, False)],
     "TSP": [("n5d", 8192, 6, True)],
